@@ -253,6 +253,11 @@ pub fn judge_prog_for(id: &'static str, prog: &Prog, family: &str, opts: &Opts, 
     l.eval();
     let obs = run::assemble_str(&src, opts);
     match &r {
+        RefOut::Unspec(w) => l.count(&format!("{} reference verdicts: unspecified{}", family, if w.starts_with("label-dependent") { format!(" ({})", w) } else { String::new() }), 1),
+        RefOut::Ok(_) => l.count(&format!("{} reference verdicts: assembles", family), 1),
+        RefOut::Error(_) => l.count(&format!("{} reference verdicts: rejected", family), 1),
+    }
+    match &r {
         RefOut::Unspec(_) => {
             l.unspecified += 1;
             if obs.panicked.is_none() {
@@ -438,6 +443,44 @@ pub fn run(ctx: &Ctx) -> Report {
         judge_prog(&f2_prog(&seq, &litems, false), "F2-layout", &opts, l);
     }));
     levels.push(json!({"family": format!("F2-layout sequences of length <= {} over {} layout items", maxlen_l, kl), "cases": n2l}));
+    // F2-label-layout: layout directives whose operand depends on labels (forward and backward); the reference
+    // iterates the layout to its self-consistent state and gives no verdict when a directive depends on its own effect
+    let ditems = vec![
+        Item::Data(Some(8), vec!["1".into()]),
+        Item::Data(Some(16), vec!["0x1234".into()]),
+        Item::Addr("A + 2".into()),
+        Item::Addr("B - 1".into()),
+        Item::Addr("6".into()),
+        Item::Res("B - A".into()),
+        Item::Res("A".into()),
+        Item::Align("(B - A) * 8".into()),
+        Item::Align("k * 8".into()),
+        Item::Const("k".into(), "B - A".into()),
+        Item::Instr("ldw B".into()),
+        Item::Instr("ld A".into()),
+    ];
+    let kd = ditems.len() as u64;
+    let maxlen_d: u32 = if ctx.thorough { 4 } else { 3 };
+    let nseq_d = seq_count(kd, maxlen_d);
+    let npos = (maxlen_d as u64 + 1) * (maxlen_d as u64 + 1);
+    let n2d = nseq_d * npos;
+    rep.absorb(par_run(n2d, |i, l| {
+        let d = decode(i, &[npos, nseq_d]);
+        let seq = seq_decode(d[1], kd, maxlen_d);
+        let (pa, pb) = ((d[0] / (maxlen_d as u64 + 1)) as usize, (d[0] % (maxlen_d as u64 + 1)) as usize);
+        // the two labels stand at every pair of positions pa <= pb of the sequence
+        if pa > pb || pb > seq.len() {
+            return;
+        }
+        if !seq.iter().any(|x| matches!(&ditems[*x], Item::Addr(e) | Item::Res(e) | Item::Align(e) if e.contains(|c: char| c.is_ascii_alphabetic() && c != 'x'))) {
+            return;
+        }
+        let mut prog = f2_prog(&seq, &ditems, false);
+        prog.items.insert(pb, Item::Label("B".into()));
+        prog.items.insert(pa, Item::Label("A".into()));
+        judge_prog(&prog, "F2-label-layout", &opts, l);
+    }));
+    levels.push(json!({"family": format!("F2-label-layout sequences of length <= {} over {} items (label-dependent #addr/#res/#align) x every pair of positions of the labels A <= B", maxlen_d, kd), "cases": n2d}));
     let maxlen_b = if ctx.thorough { 3 } else { 2 };
     let n2b = seq_count(k, maxlen_b);
     rep.absorb(par_run(n2b, |i, l| {
